@@ -291,6 +291,10 @@ class Engine:
             if isinstance(ty, TObj):
                 tr = self.c.truthy_of.get(ty.name)
                 if tr is None:
+                    # an opaque object: its truth value is unknown (it may be an empty container or define __bool__/__len__) unless the
+                    # contract says otherwise (truthy_of)
+                    return z3.Function(f"truthy!{ty.name}", ty.sort(), z3.BoolSort())(v.t)
+                if tr == "always":
                     return z3.BoolVal(True)
                 return tr(v)
         if isinstance(v, tuple):
@@ -1054,6 +1058,7 @@ class Engine:
                 order = self.fresh(st, TSeq(ty.elem, nodup=True), "setorder")
                 x = z3.Const("so!x", ty.elem.sort())
                 st.assume(z3.ForAll([x], SQ.has(order.t, x) == z3.IsMember(x, it.t)))
+                self._last_set_order = order      # ghost `_seq` of the loop: the enumeration of the iterated set
                 return SQ.length(order.t), (lambda i: V(ty.elem, SQ.at(order.t, i)))
             if isinstance(ty, TObj):
                 k = self.reg.lookup_method(ty.name, "__iter__")
@@ -2011,7 +2016,13 @@ class Engine:
             return self.unrolled_for(s, st, ci.items)
         k, spec = self.loop_spec(s)
         idx_name = spec.get("index", "_i")
+        seq_ghost = {}
+        if isinstance(it, V) and isinstance(it.ty, TSet) and getattr(self, "_last_set_order", None) is not None:
+            seq_ghost = {"_seq": self._last_set_order}       # ghost of THIS loop's invariants: the enumeration of the iterated set
+        elif isinstance(it, V) and isinstance(it.ty, TSeq):
+            seq_ghost = {"_seq": it}
         env0 = {idx_name: V(TInt, z3.IntVal(0)), "_n": V(TInt, ln)}
+        env0.update(seq_ghost)
         env0.update(self.spec_env(st))
         self.check_invs(st, "inv.init", k, spec, s, env0)
         names, attrs = self.assigned_names(s.body)
@@ -2026,6 +2037,7 @@ class Engine:
         self._nonneg.add(i.t.get_id())
         body_st.assume(z3.And(0 <= i.t, i.t < ln))
         envi = {idx_name: i, "_n": V(TInt, ln)}
+        envi.update(seq_ghost)
         envi.update(self.spec_env(body_st))
         self.assume_invs(body_st, spec, envi)
         body_st.env[idx_name] = i  # ghost: visible to invariants of nested loops
@@ -2041,6 +2053,7 @@ class Engine:
         for st2, out in self.exec_block(s.body, body_st):
             if out is None or out[0] == "continue":
                 envn = {idx_name: V(TInt, i.t + 1), "_n": V(TInt, ln)}
+                envn.update(seq_ghost)
                 envn.update(self.spec_env(st2))
                 self.check_invs(st2, "inv.pres", k, spec, s, envn)
             elif out[0] == "break":
@@ -2052,6 +2065,7 @@ class Engine:
         exit_st.fresh_n = max(exit_st.fresh_n, body_st.fresh_n) + 1000
         self.havoc(exit_st, names, attrs, s.body)
         enve = {idx_name: V(TInt, ln), "_n": V(TInt, ln)}
+        enve.update(seq_ghost)
         enve.update(self.spec_env(exit_st))
         exit_st.assume(ln >= 0)
         self.assume_invs(exit_st, spec, enve)
